@@ -2,7 +2,7 @@
     The reference model is Spec.v (the harness compares every API result of the implementation with it).
     The theorems below state that the reference really is a map with the promised error behaviour. *)
 From Bbolt Require Import Base Consts Spec SpecProofs SpecBucketProofs.
-From Bbolt Require Node NodeProofs.
+From Bbolt Require Node NodeProofs Tree TreeProofs.
 
 (** Argument and type errors (and every other error) leave the state unchanged. *)
 Theorem C04_errors_change_nothing : forall w o root e out root',
@@ -184,5 +184,23 @@ Theorem C04_split_ok_sound : forall l pieces, split_ok l pieces = true ->
   Forall (fun q => 2 <= length q)%nat (removelast pieces).
 Proof. exact split_ok_sound. Qed.
 Print Assumptions C04_split_ok_sound.
+
+(** ---- the commit-time restructuring of a bucket's tree (Tree.v: node.rebalance + node.spill, predicts the real committed tree exactly) ---- *)
+Import Tree TreeProofs.
+
+(** Tx.Commit keeps the content of the bucket: whatever the page size, the fill percentage and the ORDER in which Go's map iteration
+    lets Bucket.rebalance visit the materialised nodes, merging, removing emptied nodes, collapsing the root, splitting and creating new
+    roots leave the in-order list of leaf elements (keys, values, flags) unchanged - and the result is again a height-balanced tree.
+    (The balance hypothesis is needed: TreeProofs.merge_needs_balance merges a leaf with a branch sibling and changes the content.) *)
+Theorem C04_commit_keeps_content_for_every_visit_order : forall ps fill fuel t order t' evs,
+  aligned t -> commit_tree ps fill fuel t order = Ok (t', evs) -> flat t' = flat t /\ aligned t'.
+Proof. exact commit_tree_flat. Qed.
+Print Assumptions C04_commit_keeps_content_for_every_visit_order.
+
+(** after the commit every vertex of the tree is a page again (no materialised node is left behind unwritten) *)
+Theorem C04_commit_writes_every_dirty_node : forall ps fill fuel t order t' evs,
+  closed false t -> commit_tree ps fill fuel t order = Ok (t', evs) -> allpg false t'.
+Proof. exact commit_tree_pages. Qed.
+Print Assumptions C04_commit_writes_every_dirty_node.
 
 End NodeLayer.
